@@ -18,9 +18,13 @@ MAX_CALLEE_BLOCKS = 400
 
 
 def known_functions():
+    """functions of the reference tree, minus the *transparent* ones: small private single-caller helpers that the rule
+    tables deliberately do not name.  They are always inlined into their caller, so the rules see the same program whether
+    a maintainer keeps such a helper, inlines it by hand or re-extracts it under another name."""
     if not os.path.exists(KNOWN):
         return None
-    return set(json.load(open(KNOWN))["functions"])
+    ref = json.load(open(KNOWN))
+    return set(ref["functions"]) - set(ref.get("transparent", []))
 
 
 def signature(b):
